@@ -273,6 +273,11 @@ def train(est, data, X, y, rs, stats=None, between=None):
         from bob.learn.em import Whitening
         wh = Whitening().fit(X)
         return [wh.weights, wh.input_subtract]
+    if est == "gmm_dask":
+        nb = 3 if len(X) % 2 == 0 else 5
+        Xd = da.from_array(np.asarray(X), chunks=(-(-len(X) // nb), np.asarray(X).shape[1]))
+        g = gen.mk_gmm(data["w"], data["m"], data["v"], max_fitting_steps=3, convergence_threshold=None, update_variances=True, update_weights=True).fit(Xd)
+        return [g.weights, g.means, g.variances]
     if est == "gmm_map":
         from bob.learn.em import GMMMachine
         g = GMMMachine(2, trainer="map", ubm=ubm, max_fitting_steps=3, convergence_threshold=None, update_weights=True).fit(X)
@@ -327,8 +332,8 @@ def oracle(est, data, seed):
 def search(ctx):
     fails, seen = [], set()
     data = datasets(ctx.seed + 1)
-    ests = ["kmeans_explicit", "kmeans_seeded", "gmm_explicit", "isv", "isv_dask", "jfa", "jfa_dask", "wccn", "isv_lazy", "jfa_lazy", "kmeans_reuse", "gmm_shared_trainer", "isv_bag", "jfa_bag", "ivector", "whitening", "gmm_map"]
-    for i in range(ctx.budget(34, 240)):
+    ests = ["kmeans_explicit", "kmeans_seeded", "gmm_explicit", "isv", "isv_dask", "jfa", "jfa_dask", "wccn", "isv_lazy", "jfa_lazy", "kmeans_reuse", "gmm_shared_trainer", "isv_bag", "jfa_bag", "ivector", "whitening", "gmm_map", "gmm_dask"]
+    for i in range(ctx.budget(36, 240)):
         est = ests[i % len(ests)]
         ctx.count("search:" + est)
         ctx.case(["s", est, i], nontrivial=True)
